@@ -122,6 +122,41 @@ func c16Run(w *fw.W, idx int, vm *ds.Context, src string, desc string, run bool)
 	return err == nil && pv == nil, listing
 }
 
+// c16RunExpr runs RunExpr under the same monitor: the expression has no macro, so it must be
+// compiled under the VM's own flags.
+func c16RunExpr(w *fw.W, idx int, vm *ds.Context, src string, desc string) {
+	var findings []c16Finding
+	mo := &hook.Monitor{Cap: 300000}
+	rootFlags := cfgFlags(vm.Config)
+	mo.OnParsed = func(ctx *ds.Context, s string, err error) {
+		if err != nil {
+			return
+		}
+		code := ds.VerifCode(ctx)
+		c16Scan(code, ctx.Config, strings.Contains(s, "#EnableDice"), &findings, fmt.Sprintf("RunExpr unit(depth %d)", ctx.Depth()))
+		if cfgFlags(ctx.Config) != rootFlags {
+			findings = append(findings, c16Finding{"flags|subvm-config", "RunExpr compiles with flags that differ from the VM's: " + cfgFlags(ctx.Config) + " vs " + rootFlags})
+		}
+		w.Count("units_scanned", 1)
+	}
+	before := cfgPlain(vm.Config)
+	hook.Set(mo)
+	pv, st := fw.Guard(func() { _, _ = vm.RunExpr(src, false) })
+	hook.Set(nil)
+	if pv != nil {
+		if _, ok := pv.(hook.WorkCap); !ok {
+			w.Violate(idx, "panic", fw.PanicKey(pv, st), desc, fmt.Sprint(pv), nil)
+		}
+	}
+	if cfgPlain(vm.Config) != before {
+		w.Violate(idx, "flags", "flags|config-changed", desc, "configuration changed across RunExpr", nil)
+	}
+	for _, f := range findings {
+		w.Violate(idx, "flags", f.key, desc, f.msg, nil)
+	}
+	w.Count("runexpr_calls", 1)
+}
+
 func c16Dims(tier string) (exLen, nSample, nProg, nSeq int) {
 	if tier == "thorough" {
 		return 4, 40000, 300000, 100000
@@ -206,7 +241,13 @@ func c16Case(w *fw.W, idx int, r *fw.Rand) {
 		case 5:
 			src, fam = "&cv = "+gen.DiceProgram(r)+"; cv + `{"+gen.DiceProgram(r)+"}`", "dice-in-computed"
 		case 6:
-			src, fam = "^st "+r.Pick([]string{"力量", "a", "b", "p", "f", "c"})+r.Pick([]string{"", ":", "=", "+", "+=", "-"})+gen.DiceProgram(r), "st"
+			src, fam = "^st"+r.Pick([]string{"力量", "a", "b", "p", "f", "c"})+r.Pick([]string{"", ":", "=", "+", "+=", "-"})+gen.DiceProgram(r), "st"
+			if r.Bool() {
+				// lists whose later values are parenthesised and carry templates with statements,
+				// bare Nd dice and bitwise operators: the st value rules disable all of these
+				inner := r.Pick([]string{"`{% func f(){ 1 } %}`", "`{% if 1 { 2 } %}`", "`{% i=0; while i<2 { i=i+1 } %}`", "2d", "1|2", "3&1", "`{ 2d }`", "b2", "f", "3a8"})
+				src = "^st力量60 敏捷(" + inner + ")" + r.Pick([]string{"", " 体质70", ",智力(" + inner + ")"})
+			}
 		default:
 			src, fam = gen.StmtNest(r, 2, false, false)+"; "+gen.DiceProgram(r), "nest+dice"
 		}
@@ -253,8 +294,28 @@ func c16Case(w *fw.W, idx int, r *fw.Rand) {
 			hist = append(hist, src)
 			desc := fmt.Sprintf("families=%04b history=%q", bits, hist)
 			w.Begin(idx, desc)
+			if k == 0 && r.P(1, 3) {
+				// values without compiled code (as restored from JSON or built by the host): they are
+				// compiled lazily in a sub-VM at their first use, possibly by an input carrying a macro
+				if fv, err := ds.VMValueFromJSON([]byte(`{"t":8,"v":{"expr":"b2 + f + 2a8 + 2c8","name":"lazyf","params":[]}}`)); err == nil {
+					vm.Attrs.Store("lazyf", fv)
+				}
+				vm.Attrs.Store("lazyc", ds.NewComputedVal("p1 + f"))
+				hist[len(hist)-1] = "(lazyf, lazyc installed) " + src
+			}
+			if r.P(1, 4) {
+				src2 := src + r.Pick([]string{"; lazyf()", "; lazyc", ""})
+				hist[len(hist)-1] = src2
+				src = src2
+			}
 			_, listing := c16Run(w, idx, vm, src, desc, true)
 			w.Eval(1)
+			if r.P(1, 3) {
+				// RunExpr right after an evaluation (with or without macro)
+				ex := r.Pick([]string{"b2", "f", "3a8", "2c8", "p", "lazyf()", "lazyc"})
+				hist = append(hist, "RunExpr:"+ex)
+				c16RunExpr(w, idx, vm, ex, fmt.Sprintf("families=%04b history=%q", bits, hist))
+			}
 			if !strings.Contains(src, "#EnableDice ") {
 				// an input without macro must compile exactly as on a fresh VM with the same Config
 				fresh := cfg.NewVM()
